@@ -113,6 +113,7 @@ impl TransportFn<()> for DropRun {
         // buffers the caller lends to the driver; they are freed only after the driver is gone
         let mut keep: Vec<Box<[u8]>> = Vec::new();
         let mut keep_req: Vec<(Box<virtio_drivers::device::blk::BlkReq>, Box<virtio_drivers::device::blk::BlkResp>)> = Vec::new();
+        let mut sound_tokens: Vec<u16> = Vec::new();
         let n = choose(12);
         for step in 0..n {
             if violated() {
@@ -169,8 +170,18 @@ impl TransportFn<()> for DropRun {
                     use virtio_drivers::device::sound::{PcmFeatures, PcmFormat, PcmRate};
                     if step == 0 {
                         let _ = s.pcm_set_params(0, 32, 16, PcmFeatures::empty(), 1, PcmFormat::U8, PcmRate::Rate8000);
+                    } else if flip(1, 2) || sound_tokens.is_empty() {
+                        if let Ok(t) = s.pcm_xfer_nb(0, &[1u8; 16]) {
+                            sound_tokens.push(t);
+                        }
                     } else {
-                        let _ = s.pcm_xfer_nb(0, &[1u8; 16]);
+                        // acknowledge a transfer - possibly before the device completed it, or not
+                        // the one the device completed first
+                        let i = choose(sound_tokens.len() as u64) as usize;
+                        let t = sound_tokens[i];
+                        if s.pcm_xfer_ok(t).is_ok() {
+                            sound_tokens.remove(i);
+                        }
                     }
                     with(|w| {
                         w.personality::<crate::devices::sound::SoundDev>().events.budget += 1;
